@@ -39,12 +39,12 @@ theorem rowsAt_error_mem : ∀ (K : Kids) (n j : Nat) (r : Row), r ∈ rowsAt n 
       · rcases List.mem_cons.mp h with h | h
         · subst h
           exact Or.inr (segRes_mem_errsOf rest x hx)
-        · exact Or.inr (ihrest _ _ r h x hx)
+        · exact Or.inr (ihrest _ _ r (mem_of_mem_ite _ _ _ h) x hx)
       · split at h
         · simp at h; subst h; simp at hx; subst hx; simp
         · rcases List.mem_cons.mp h with h | h
           · subst h; simp at hx; subst hx; simp
-          · exact Or.inl (Or.inr (ihks _ _ r (mem_of_mem_ite _ _ _ h) x hx))
+          · exact Or.inl (Or.inr (ihks _ _ r (mem_of_mem_ite _ _ _ (mem_of_mem_ite _ _ _ h)) x hx))
     · split at h
       · exact Or.inl (Or.inr (ihks _ _ r h x hx))
       · exact Or.inr (ihrest _ _ r h x hx)
@@ -68,29 +68,6 @@ theorem lastHead_none_first (n : Nat) (K : Kids) (h : lastHead none n K = none) 
   | cons ch i ks res rest =>
     simp only [lastHead, Option.isSome_none, Bool.and_false, Bool.false_eq_true, if_false] at h
     cases hr : lastHead (some n) (n + 1 + ks.size) rest <;> simp [hr] at h
-
-theorem segRes_eq_lastRes_of_no_head : ∀ (rest : Kids) (ch : Bool) (i : Info) (ks : Kids) (res : Option Nat)
-    (n n' : Nat), lastHead (some n) n' rest = none →
-    segRes (.cons ch i ks res rest) = lastRes (.cons ch i ks res rest) := by
-  intro rest
-  induction rest with
-  | nil => intro ch i ks res n n' _; simp [segRes, lastRes, Kids.startsChained]
-  | cons ch2 i2 ks2 res2 rest2 _ ih2 =>
-    intro ch i ks res n n' h
-    simp only [lastHead, Option.isSome_some, Bool.and_true] at h
-    cases hr : lastHead (some n') (n' + 1 + ks2.size) rest2 with
-    | some x => simp [hr] at h
-    | none =>
-      rw [hr] at h
-      simp only [Option.none_or] at h
-      have hch2 : ch2 = true := by
-        cases ch2
-        · simp at h
-        · rfl
-      subst hch2
-      rw [show lastRes (.cons ch i ks res (.cons true i2 ks2 res2 rest2)) = lastRes (.cons true i2 ks2 res2 rest2) from rfl]
-      rw [← ih2 true i2 ks2 res2 n' _ hr]
-      simp [segRes, Kids.startsChained]
 
 theorem segResAt_lastHead : ∀ (K : Kids) (prev : Option Nat) (n h : Nat),
     lastHead prev n K = some h → segResAt n K h = lastRes K := by
@@ -259,6 +236,7 @@ def SpineStmt (e : Nat) (sp : List Nat) (next : Nat → List Nat → Prop) (flag
     List.Sublist (sp.take k) (A.map (·.frame)) ∧
     A.getLast?.map (·.frame) = sp[k - 1]? ∧
     (∀ r, r ∈ A → r.frame ∈ sp.take k ∨ (r.branches = [] ∧ flag r.frame)) ∧
+    (B ≠ [] → ∃ last, A.getLast? = some last ∧ last.branches = []) ∧
     (k = sp.length ∨
       (B = [] ∧ ∃ last h, A.getLast? = some last ∧ last.branches.getLast? = some h ∧ next h (sp.drop k)))
 
@@ -266,8 +244,8 @@ theorem SpineStmt_lift (e : Nat) (sp : List Nat) (next next' : Nat → List Nat 
     (rows : List Row)
     (hn : ∀ h l, next' h l → next h l) (hfl : ∀ f, flag' f → flag f)
     (h : SpineStmt e sp next' flag' rows) : SpineStmt e sp next flag rows := by
-  obtain ⟨A, B, k, h1, h2, h3, h4, h5, h6, h7, h8, hx, h9⟩ := h
-  refine ⟨A, B, k, h1, h2, h3, h4, h5, h6, h7, h8, ?_, ?_⟩
+  obtain ⟨A, B, k, h1, h2, h3, h4, h5, h6, h7, h8, hx, hy, h9⟩ := h
+  refine ⟨A, B, k, h1, h2, h3, h4, h5, h6, h7, h8, ?_, hy, ?_⟩
   · intro r hr
     rcases hx r hr with h | h
     · exact Or.inl h
@@ -286,8 +264,8 @@ theorem SpineStmt_step (e : Nat) (sp : List Nat) (next : Nat → List Nat → Pr
     (rows : List Row) (row : Row)
     (hr : row.error = some e) (hb : row.branches = []) (hf : flag row.frame) (h : SpineStmt e sp next flag rows) :
     SpineStmt e sp next flag (row :: rows) := by
-  obtain ⟨A, B, k, h1, h2, h3, h4, h5, h6, h7, h8, hx, h9⟩ := h
-  refine ⟨row :: A, B, k, by simp [h1], by simp, ?_, h4, h5, h6, ?_, ?_, ?_, ?_⟩
+  obtain ⟨A, B, k, h1, h2, h3, h4, h5, h6, h7, h8, hx, hy, h9⟩ := h
+  refine ⟨row :: A, B, k, by simp [h1], by simp, ?_, h4, h5, h6, ?_, ?_, ?_, ?_, ?_⟩
   · intro r hm
     rcases List.mem_cons.mp hm with h | h
     · subst h; exact hr
@@ -299,6 +277,7 @@ theorem SpineStmt_step (e : Nat) (sp : List Nat) (next : Nat → List Nat → Pr
     rcases List.mem_cons.mp hm with h | h
     · subst h; exact Or.inr ⟨hb, hf⟩
     · exact hx r h
+  · rw [getLast?_cons_ne _ _ h2]; exact hy
   · rw [getLast?_cons_ne _ _ h2]; exact h9
 
 /-- a call with outcome `e` comes first -/
@@ -306,8 +285,8 @@ theorem SpineStmt_call (e : Nat) (sp : List Nat) (next : Nat → List Nat → Pr
     (rows : List Row) (row : Row)
     (hr : row.error = some e) (h : SpineStmt e sp next flag rows) :
     SpineStmt e (row.frame :: sp) next flag (row :: rows) := by
-  obtain ⟨A, B, k, h1, h2, h3, h4, h5, h6, h7, h8, hx, h9⟩ := h
-  refine ⟨row :: A, B, k + 1, by simp [h1], by simp, ?_, h4, by omega, by simp; omega, ?_, ?_, ?_, ?_⟩
+  obtain ⟨A, B, k, h1, h2, h3, h4, h5, h6, h7, h8, hx, hy, h9⟩ := h
+  refine ⟨row :: A, B, k + 1, by simp [h1], by simp, ?_, h4, by omega, by simp; omega, ?_, ?_, ?_, ?_, ?_⟩
   · intro r hm
     rcases List.mem_cons.mp hm with h | h
     · subst h; exact hr
@@ -324,6 +303,7 @@ theorem SpineStmt_call (e : Nat) (sp : List Nat) (next : Nat → List Nat → Pr
     · rcases hx r h with h' | h'
       · exact Or.inl (Or.inr h')
       · exact Or.inr h'
+  · rw [getLast?_cons_ne _ _ h2]; exact hy
   · rw [getLast?_cons_ne _ _ h2]
     rcases h9 with h9 | h9
     · exact Or.inl (by simp [h9])
@@ -331,15 +311,17 @@ theorem SpineStmt_call (e : Nat) (sp : List Nat) (next : Nat → List Nat → Pr
 
 /-- the call that raised `e` (the rows below it show other errors) -/
 theorem SpineStmt_raiser (e : Nat) (next : Nat → List Nat → Prop) (flag : Nat → Prop) (row : Row) (B : List Row)
-    (hr : row.error = some e) (hB : ∀ r, r ∈ B → r.error ≠ some e) : SpineStmt e [row.frame] next flag (row :: B) :=
-  ⟨[row], B, 1, rfl, by simp, by simpa using hr, hB, Nat.le_refl 1, by simp, by simp, by simp, by simp, Or.inl rfl⟩
+    (hr : row.error = some e) (hB : ∀ r, r ∈ B → r.error ≠ some e) (hbr : B ≠ [] → row.branches = []) :
+    SpineStmt e [row.frame] next flag (row :: B) :=
+  ⟨[row], B, 1, rfl, by simp, by simpa using hr, hB, Nat.le_refl 1, by simp, by simp, by simp, by simp,
+    fun h => ⟨row, rfl, hbr h⟩, Or.inl rfl⟩
 
 /-- the linear descent stops at a call with outcome `e` that shows its branches -/
 theorem SpineStmt_stop (e : Nat) (sp : List Nat) (next : Nat → List Nat → Prop) (flag : Nat → Prop) (row : Row) (h : Nat)
     (hr : row.error = some e) (hm : row.branches.getLast? = some h) (hn : next h sp) :
     SpineStmt e (row.frame :: sp) next flag [row] :=
   ⟨[row], [], 1, rfl, by simp, by simpa using hr, by simp, Nat.le_refl 1, by simp, by simp, by simp, by simp,
-    Or.inr ⟨rfl, row, h, rfl, hm, by simpa using hn⟩⟩
+    fun h => absurd rfl h, Or.inr ⟨rfl, row, h, rfl, hm, by simpa using hn⟩⟩
 
 /-- `next` for the sibling list `K` with first frame `n` -/
 def nextOf (e n : Nat) (K : Kids) : Nat → List Nat → Prop :=
@@ -418,7 +400,8 @@ theorem rowsAt_spine (e : Nat) : ∀ (K : Kids) (n j : Nat), onePath e K = true 
           have ih := ihrest (j + 1 + ks.size) (j + 1 + ks.size) hop' (by simp [startOK, hseg])
           have hrows : rowsAt j (.cons ch i ks res (.cons ch2 i2 ks2 res2 rest2)) j =
               ⟨j, some e, []⟩ :: rowsAt (j + 1 + ks.size) (.cons ch2 i2 ks2 res2 rest2) (j + 1 + ks.size) := by
-            simp only [rowsAt, if_true, hrs, hseg]
+            rw [rowsAt]
+            simp only [if_true, hrs, hseg, Option.isNone_some, Bool.false_eq_true, if_false]
           have hsp : spineAt e j (.cons ch i ks res (.cons ch2 i2 ks2 res2 rest2)) j =
               spineAt e (j + 1 + ks.size) (.cons ch2 i2 ks2 res2 rest2) (j + 1 + ks.size) := by
             simp only [spineAt, if_true]
@@ -448,12 +431,13 @@ theorem rowsAt_spine (e : Nat) : ∀ (K : Kids) (n j : Nat), onePath e K = true 
           have hrows : rowsAt j (.cons ch i .nil (some e) .nil) j = [⟨j, some e, []⟩] := by
             simp [rowsAt, Kids.startsChained, lastHead]
           rw [hrows]
-          exact SpineStmt_raiser e _ _ ⟨j, some e, []⟩ [] rfl (by simp)
+          exact SpineStmt_raiser e _ _ ⟨j, some e, []⟩ [] rfl (by simp) (fun _ => rfl)
         | some h =>
           generalize hbr : (if failedHeads j none (j + 1) ks == [h] then [] else failedHeads j none (j + 1) ks) = br
           have hrows : rowsAt j (.cons ch i ks (some e) .nil) j =
-              ⟨j, some e, br⟩ :: (if br.contains h then [] else rowsAt (j + 1) ks h) := by
-            simp only [rowsAt, if_true, Kids.startsChained, Bool.false_eq_true, if_false, hlh, hbr]
+              ⟨j, some e, br⟩ :: (if br.contains h then [] else if (lastRes ks).isNone then [] else rowsAt (j + 1) ks h) := by
+            rw [rowsAt]
+            simp only [if_true, Kids.startsChained, Bool.false_eq_true, if_false, hlh, hbr]
           rw [hrows]
           have hsegh : segResAt (j + 1) ks h = lastRes ks := segResAt_lastHead ks none (j + 1) h hlh
           by_cases hlr : lastRes ks = some e
@@ -474,7 +458,7 @@ theorem rowsAt_spine (e : Nat) : ∀ (K : Kids) (n j : Nat), onePath e K = true 
               exact SpineStmt_stop e _ _ _ ⟨j, some e, br⟩ h rfl hgl
                 (nextOf_lift_ks e j ch i ks h _ ⟨hstart, hspk⟩)
             | false =>
-              simp only [Bool.false_eq_true, if_false]
+              simp only [Bool.false_eq_true, if_false, hlr, Option.isNone_some]
               have ih := ihks (j + 1) h hopk hstart
               rw [hspk] at ih
               exact SpineStmt_call e _ _ _ _ ⟨j, some e, br⟩ rfl
@@ -482,9 +466,27 @@ theorem rowsAt_spine (e : Nat) : ∀ (K : Kids) (n j : Nat), onePath e K = true 
           · -- the call raised `e` itself
             rw [spineK_nil_of_lastRes e ks _ hlr]
             apply SpineStmt_raiser e _ _ ⟨j, some e, br⟩ _ rfl
-            intro r hm hre
-            have hm' := mem_of_mem_ite _ _ _ hm
-            exact not_mem_errsOf_of_onePath e ks hopk hlr (rowsAt_error_mem ks _ _ r hm' e hre)
+            · intro r hm hre
+              have hm' := mem_of_mem_ite _ _ _ (mem_of_mem_ite _ _ _ hm)
+              exact not_mem_errsOf_of_onePath e ks hopk hlr (rowsAt_error_mem ks _ _ r hm' e hre)
+            · -- rows below the call that raised: its only failed branch, shown linearly
+              intro hne
+              show br = []
+              cases hc : br.contains h with
+              | true => rw [hc] at hne; exact (hne rfl).elim
+              | false =>
+                cases hlk : lastRes ks with
+                | none => rw [hc, hlk] at hne; exact (hne rfl).elim
+                | some x =>
+                  have hgl := failedHeads_getLast x ks j none (j + 1) hlk
+                  rw [hlh] at hgl
+                  have hmem : h ∈ failedHeads j none (j + 1) ks := List.mem_of_getLast? hgl
+                  rw [← hbr] at hc ⊢
+                  split
+                  · rfl
+                  · rename_i hce
+                    simp [hce] at hc
+                    exact absurd hmem hc
     · by_cases hjk : j < n + 1 + ks.size
       · -- below the first sub-evaluation, which then is the last one and has outcome `e`
         simp only [startOK, if_neg hjn, if_pos hjk, Bool.and_eq_true, beq_iff_eq] at hst
@@ -723,7 +725,12 @@ theorem unpackLoop_branches (fs : Array Frame) : ∀ (fuel cur : Nat) (acc : Lis
           · subst hr; simp [branchesOf, hf, hlc, ← hbr]
         cases hc : br.contains child with
         | true => rw [hc] at hr; exact hacc' r hr
-        | false => rw [hc] at hr; exact ih child _ hacc' r hr
+        | false =>
+          rw [hc] at hr
+          simp only [Bool.false_eq_true, if_false] at hr
+          split at hr
+          · exact hacc' r hr
+          · exact ih child _ hacc' r hr
 
 theorem dropNoneKeepOne_suffix : ∀ (l : List Row), dropNoneKeepOne l <:+ l
   | [] => List.suffix_refl _
@@ -781,5 +788,202 @@ theorem frameAt_noPy : ∀ (K : Kids) (p : Nat) (prev : Option Nat) (n j : Nat),
       split
       · rename_i hj2; rw [if_pos hj2] at h; exact ihks _ _ _ _ h
       · rename_i hj2; rw [if_neg hj2] at h; exact ihrest _ _ _ _ h
+
+
+/-! ### after the repair of `_unpack_stack` (the descent stops at a last child without CUR_ERROR) -/
+
+/-- the first row from a sibling `j` shows the outcome of the chain `j` belongs to -/
+theorem rowsAt_head_error : ∀ (K : Kids) (n j x : Nat), segResAt n K j = some x →
+    (rowsAt n K j).head?.map (·.error) = some (some x) := by
+  intro K
+  induction K with
+  | nil => intro n j x h; simp [segResAt] at h
+  | cons ch i ks res rest _ ihrest =>
+    intro n j x h
+    simp only [segResAt] at h
+    rw [rowsAt]
+    split
+    · rename_i hj
+      simp only [hj, if_true, segRes] at h
+      split
+      · rename_i hrs; simp [hrs] at h; simp [h]
+      · rename_i hrs
+        simp [hrs] at h
+        split <;> simp [h]
+    · rename_i hj
+      rw [if_neg hj] at h
+      split
+      · rename_i hj2; simp [hj2] at h
+      · rename_i hj2; rw [if_neg hj2] at h; exact ihrest _ _ _ h
+
+/-- **every row of the loop after the first shows an error** -/
+theorem rowsAt_tail_error : ∀ (K : Kids) (n j : Nat) (r : Row), r ∈ (rowsAt n K j).tail → r.error ≠ none := by
+  intro K
+  induction K with
+  | nil => intro n j r h; simp [rowsAt] at h
+  | cons ch i ks res rest ihks ihrest =>
+    intro n j r h
+    rw [rowsAt] at h
+    split at h
+    · split at h
+      · simp only [List.tail_cons] at h
+        split at h
+        · simp at h
+        · rename_i hsn
+          cases hx : segRes rest with
+          | none => simp [hx] at hsn
+          | some x =>
+            have hrest : rest ≠ .nil := by intro h0; subst h0; simp [segRes] at hx
+            have hsa : segResAt (n + 1 + ks.size) rest (n + 1 + ks.size) = some x := by
+              cases rest with
+              | nil => exact absurd rfl hrest
+              | cons _ _ _ _ _ => simpa [segResAt] using hx
+            have hh := rowsAt_head_error rest _ _ x hsa
+            cases hl : rowsAt (n + 1 + ks.size) rest (n + 1 + ks.size) with
+            | nil => rw [hl] at h; simp at h
+            | cons a l =>
+              rw [hl] at h hh
+              rcases List.mem_cons.mp h with h | h
+              · subst h; simp at hh; simp [hh]
+              · exact ihrest _ _ r (by rw [hl]; exact h)
+      · split at h
+        · simp at h
+        · rename_i h' hlh
+          simp only [List.tail_cons] at h
+          have h2 := mem_of_mem_ite _ _ _ h
+          split at h2
+          · simp at h2
+          · rename_i hln
+            cases hx : lastRes ks with
+            | none => simp [hx] at hln
+            | some x =>
+              have hsa : segResAt (n + 1) ks h' = some x := by rw [segResAt_lastHead ks none (n + 1) h' hlh, hx]
+              have hh := rowsAt_head_error ks _ _ x hsa
+              cases hl : rowsAt (n + 1) ks h' with
+              | nil => rw [hl] at h2; simp at h2
+              | cons a l =>
+                rw [hl] at h2 hh
+                rcases List.mem_cons.mp h2 with h3 | h3
+                · subst h3; simp at hh; simp [hh]
+                · exact ihks _ _ r (by rw [hl]; exact h3)
+    · split at h
+      · exact ihks _ _ r h
+      · exact ihrest _ _ r h
+
+theorem getLast?_cons_eq (a : Row) (l : List Row) : (a :: l).getLast? = if l = [] then some a else l.getLast? := by
+  cases l with
+  | nil => rfl
+  | cons b r => simp [List.getLast?_cons_cons]
+
+theorem getLast?_cons_cases (a : Row) (L : List Row) (r : Row) (h : (a :: L).getLast? = some r) :
+    (L = [] ∧ r = a) ∨ (L ≠ [] ∧ L.getLast? = some r) := by
+  cases L with
+  | nil => simp at h; exact Or.inl ⟨rfl, h.symm⟩
+  | cons b l => rw [List.getLast?_cons_cons] at h; exact Or.inr ⟨by simp, h⟩
+
+theorem rowsAt_first_ne_nil (n : Nat) (ch : Bool) (i : Info) (ks : Kids) (res : Option Nat) (rest : Kids) :
+    rowsAt n (.cons ch i ks res rest) n ≠ [] := by
+  rw [rowsAt]
+  simp only [if_true]
+  split
+  · simp
+  · split <;> simp
+
+theorem ite_ite_eq_of_ne_nil (c1 c2 : Prop) [Decidable c1] [Decidable c2] (l : List Row)
+    (hl : (if c1 then [] else if c2 then [] else l) ≠ []) : (if c1 then [] else if c2 then [] else l) = l := by
+  by_cases h1 : c1
+  · rw [if_pos h1] at hl; exact absurd rfl hl
+  · by_cases h2 : c2
+    · rw [if_neg h1, if_pos h2] at hl; exact absurd rfl hl
+    · rw [if_neg h1, if_neg h2]
+
+/-- **the last row of the loop, if it shows an error, is a call with that outcome** (not a
+    completed chain step: the loop goes on from a step of a chain that raised) -/
+theorem rowsAt_last : ∀ (K : Kids) (o : Option Nat) (n j : Nat) (r : Row),
+    (rowsAt n K j).getLast? = some r → r.error ≠ none →
+    ∃ c, c ∈ callsK o n K ∧ c.idx = r.frame ∧ c.result = r.error := by
+  intro K
+  induction K with
+  | nil => intro o n j r h; simp [rowsAt] at h
+  | cons ch i ks res rest ihks ihrest =>
+    intro o n j r h hne
+    rw [rowsAt] at h
+    simp only [callsK, List.mem_cons, List.mem_append]
+    by_cases hjn : j = n
+    · rw [if_pos hjn] at h
+      cases hrs : rest.startsChained with
+      | true =>
+        rw [hrs] at h
+        simp only [if_true] at h
+        by_cases hsn : (segRes rest).isNone = true
+        · rw [if_pos hsn] at h
+          simp at h; subst h
+          simp at hne hsn
+          exact absurd hsn hne
+        · rw [if_neg hsn] at h
+          cases rest with
+          | nil => simp [Kids.startsChained] at hrs
+          | cons c2 i2 k2 r2 rest2 =>
+            rw [getLast?_cons_ne _ _ (rowsAt_first_ne_nil _ c2 i2 k2 r2 rest2)] at h
+            obtain ⟨c, hc, h1, h2⟩ := ihrest o _ _ r h hne
+            exact ⟨c, Or.inr (Or.inr hc), h1, h2⟩
+      | false =>
+        rw [hrs] at h
+        simp only [Bool.false_eq_true, if_false] at h
+        cases hlh : lastHead none (n + 1) ks with
+        | none =>
+          rw [hlh] at h
+          simp at h; subst h
+          exact ⟨_, Or.inl rfl, rfl, rfl⟩
+        | some h' =>
+          rw [hlh] at h
+          simp only at h
+          rcases getLast?_cons_cases _ _ _ h with ⟨_, hr⟩ | ⟨hl, hr⟩
+          · subst hr
+            exact ⟨_, Or.inl rfl, rfl, rfl⟩
+          · rw [ite_ite_eq_of_ne_nil _ _ _ hl] at hr
+            obtain ⟨c, hc, h1, h2⟩ := ihks (some n) _ _ r hr hne
+            exact ⟨c, Or.inr (Or.inl hc), h1, h2⟩
+    · rw [if_neg hjn] at h
+      by_cases hjk : j < n + 1 + ks.size
+      · rw [if_pos hjk] at h
+        obtain ⟨c, hc, h1, h2⟩ := ihks (some n) _ _ r h hne
+        exact ⟨c, Or.inr (Or.inl hc), h1, h2⟩
+      · rw [if_neg hjk] at h
+        obtain ⟨c, hc, h1, h2⟩ := ihrest o _ _ r h hne
+        exact ⟨c, Or.inr (Or.inr hc), h1, h2⟩
+
+theorem pushDown_getLast : ∀ (l : List Row), (pushDown l).getLast? = l.getLast?
+  | [] => rfl
+  | [_] => rfl
+  | a :: b :: l => by
+    have hne : pushDown (b :: l) ≠ [] := by
+      cases l <;> simp [pushDown]
+    simp only [pushDown]
+    rw [getLast?_cons_ne _ _ hne, pushDown_getLast (b :: l)]
+    simp [List.getLast?_cons_cons]
+
+/-- nothing is trimmed when the last row shows an error -/
+theorem trimTail_of_last (l : List Row) (r : Row) (h : l.getLast? = some r) (hr : r.error ≠ none) : trimTail l = l := by
+  unfold trimTail
+  have hrev : l.reverse.head? = some r := by rw [List.head?_reverse]; exact h
+  cases hl : l.reverse with
+  | nil => rw [hl] at hrev; simp at hrev
+  | cons a rest =>
+    rw [hl] at hrev
+    simp at hrev
+    subst hrev
+    have : dropNoneKeepOne (a :: rest) = a :: rest := by
+      cases rest with
+      | nil => rfl
+      | cons b rest' =>
+        simp only [dropNoneKeepOne]
+        have : a.error.isNone = false := by
+          cases he : a.error with
+          | none => exact absurd he hr
+          | some _ => rfl
+        simp [this]
+    rw [this, ← hl]
+    simp
 
 end Glom.C05
